@@ -529,7 +529,9 @@ func (r *transport) backgroundRevalidate(
 		if resp.StatusCode == http.StatusNotModified && !sentValidatorsOf(req, stored.Data.Header) {
 			// The entry was replaced while the origin was asked: the 304 speaks about the response
 			// whose validators were sent, not about this one (RFC 9111 §4.3.4), and updates nothing.
-			_ = resp.Body.Close()
+			if resp.Body != nil { // a hand-written upstream may leave it nil
+				_ = resp.Body.Close()
+			}
 			errc <- nil
 			return
 		}
